@@ -142,9 +142,32 @@ def protocol_members(cls):
 # ----------------------------------------------------------------- from runtime typing objects
 
 
+_tv_subst: dict = {}
+
+
+def user_generic(cls, arg_tys):
+    """A user-defined generic class that derives from generic bases (class Rev(Dict[V, K], Generic[K, V])):
+    ("ugen", cls, base types with the class's own parameters replaced by arg_tys), or None.  The order of
+    the class's parameters is the one CPython computes (`cls.__parameters__`: Generic[...] decides if present)."""
+    params = getattr(cls, "__parameters__", ())
+    bases = [b for b in getattr(cls, "__orig_bases__", ())
+             if typing_extensions.get_origin(b) not in (typing.Generic, typing.Protocol, typing_extensions.Protocol)]
+    if not params or len(params) != len(arg_tys) or not bases or getattr(cls, "__module__", "") != "pv_vocab":
+        return None
+    old = dict(_tv_subst)
+    _tv_subst.update(zip(params, arg_tys))
+    try:
+        return ("ugen", cls, tuple(from_rt(b) for b in bases))
+    finally:
+        _tv_subst.clear()
+        _tv_subst.update(old)
+
+
 def from_rt(t) -> tuple:
     if t is Any or t is typing_extensions.Any:
         return ANY
+    if isinstance(t, typing.TypeVar) and t in _tv_subst:
+        return _tv_subst[t]
     if t is None or t is type(None):
         return ("lit", None)
     if t is typing.NoReturn or t is typing_extensions.Never or t is getattr(typing, "Never", object()):
@@ -183,6 +206,9 @@ def from_rt(t) -> tuple:
     if origin is not None and isinstance(origin, type):
         if typing_extensions.is_typeddict(origin):
             return ("unknown", "generic typeddict")
+        ug = user_generic(origin, tuple(from_rt(a) for a in args))
+        if ug is not None:
+            return ug
         return ("gen", origin, tuple(from_rt(a) for a in args))
     if typing_extensions.is_typeddict(t):
         return from_typeddict(t)
@@ -281,6 +307,9 @@ def from_value(v) -> tuple:
             if len(v.args) == 1:
                 return ("tuple", tuple, ((True, from_value(v.args[0])),))
             return ("unknown", "tuple-generic")
+        ug = user_generic(v.typ, tuple(from_value(a) for a in v.args))
+        if ug is not None:
+            return ug
         return ("gen", v.typ, tuple(from_value(a) for a in v.args))
     if isinstance(v, V.TypedValue):
         if not isinstance(v.typ, type):
@@ -355,6 +384,10 @@ def mem(o, ty):
         return None if isinstance(o, sup) else False
     if tag == "gen":
         return mem_gen(o, ty[1], ty[2])
+    if tag == "ugen":
+        if not isinstance(o, ty[1]):
+            return False
+        return and3(mem(o, b) for b in ty[2])
     if tag == "tuple":
         cls, members = ty[1], ty[2]
         if not isinstance(o, cls):
@@ -656,6 +689,14 @@ def structural(ty, _depth=0):
         for t in ty[1]:
             out += structural(t, _depth)[:3]
         return out
+    if tag == "ugen":
+        out = []
+        for w in sub(ty[2][0], 4):
+            try:
+                out.append(ty[1](w))
+            except Exception:
+                pass
+        return out
     if tag == "gen":
         c, args = ty[1], ty[2]
         if c in (list, cabc.Sequence, cabc.Iterable, cabc.Collection, cabc.MutableSequence, cabc.Container, cabc.Reversible) and args:
@@ -811,6 +852,9 @@ def to_src(o):
         return repr(o)
     if isinstance(o, _enum.Enum):
         return f"{type(o).__name__}.{o.name}" if type(o).__name__ in NS else None
+    if type(o).__module__ == "pv_vocab" and type(o).__name__ in ("Rev", "Fwd", "IntKeyed", "LS"):
+        inner = to_src(dict(o) if isinstance(o, dict) else list(o))
+        return None if inner is None else f"{type(o).__name__}({inner})"
     if isinstance(o, (list, tuple, set, frozenset)):
         parts = [to_src(x) for x in o]
         if any(p is None for p in parts):
